@@ -8,11 +8,11 @@ sys.path.insert(0, _here)
 
 # properties whose checks are registered in MANIFEST.json (a model may already serve a property
 # that is not yet claimed because another model it needs is still missing)
-CLAIMED = ["C01", "C02", "C03", "C04", "C05", "C06", "C07", "C08", "C09", "C10", "C11", "C12", "C14", "C15", "C16", "C17", "C18", "C19", "C20"]
+CLAIMED = ["C01", "C02", "C03", "C04", "C05", "C06", "C07", "C08", "C09", "C10", "C11", "C12", "C13", "C14", "C15", "C16", "C17", "C18", "C19", "C20"]
 
 # models integrated and reviewed; a claimed property is decided by its READY models only (models still
 # under construction serve only properties that are not yet claimed)
-READY = {"RoleTransfer", "Fungible", "Vault", "MulDiv", "Gates", "Access", "VaultBig", "Timelock", "TimelockController", "Rwa", "Nft", "Policies", "Merkle", "Verifiers", "FeeForwarder", "SmartAccount", "Royalties", "Identity"}
+READY = {"RoleTransfer", "Fungible", "Vault", "MulDiv", "Gates", "Access", "VaultBig", "Timelock", "TimelockController", "Rwa", "Nft", "Policies", "Merkle", "Verifiers", "FeeForwarder", "SmartAccount", "Royalties", "Identity", "Votes"}
 
 MODELS, PROPS = {}, {}
 EXTRA_MODELS = set()   # models of behaviour beyond the listed properties (ids X01, X02, ...; `./check extra`)
